@@ -78,6 +78,13 @@ def jac(pt, lam=1):
     return (mont(x * lam * lam % P), mont(y * pow(lam, 3, P) % P), mont(lam % P))
 
 
+def jac_rawz(pt, zraw):
+    """raw triple of an affine point whose raw (Montgomery) Z coordinate is exactly zraw"""
+    z = zraw * pow(R, -1, P) % P
+    x, y = pt
+    return (mont(x * z * z % P), mont(y * pow(z, 3, P) % P), zraw)
+
+
 def h64(x):
     return "%064x" % x
 
